@@ -2723,9 +2723,22 @@ const reflectEmbeddedErr = "reflect: embedded type with methods not implemented 
 // astFields.
 func (tc *typechecker) makeStructOf(fields []reflect.StructField, astFields []*ast.Field) reflect.Type {
 	defer func() {
-		err, _ := recover().(string)
-		if err != reflectEmbeddedErr {
+		r := recover()
+		if r == nil {
 			return
+		}
+		err, _ := r.(string)
+		if err != reflectEmbeddedErr {
+			// reflect.StructOf has other limitations on embedded fields with
+			// methods: report them at the first embedded field.
+			if strings.HasPrefix(err, "reflect: embedded ") {
+				for _, field := range astFields {
+					if field.Idents == nil {
+						panic(tc.errorf(field.Type, "%s", err[9:]))
+					}
+				}
+			}
+			panic(r)
 		}
 		// Call StructOf for each embedded field to check the position of
 		// the field that has panicked.
@@ -2760,6 +2773,7 @@ func (tc *typechecker) makeStructOf(fields []reflect.StructField, astFields []*a
 				tc.types.StructOf(probe)
 			}()
 		}
+		panic(r)
 	}()
 	return tc.types.StructOf(fields)
 }
